@@ -117,6 +117,10 @@ func NewCtx() *Ctx {
 // Set the variable to context.
 // Inspector ins should be corresponded to variable val.
 func (ctx *Ctx) Set(key string, val any, ins inspector.Inspector) *Ctx {
+	if ins == nil {
+		// Every read of the variable calls the inspector: without one, take the value as a static one.
+		return ctx.SetStatic(key, val)
+	}
 	for i := 0; i < ctx.ln; i++ {
 		if ctx.vars[i].key == key {
 			// Update existing variable.
